@@ -52,7 +52,22 @@ def run(chk, crate="rssl_hlsl", P="C01"):
     rule_enum_literal(chk, crate, P)
     if P == "C01":
         rule_conv(chk, P)
+        rule_folded_constants(chk)
     rule_text(chk, P)
+
+
+def rule_folded_constants(chk):
+    """Array sizes, case labels, enum values and template value arguments reach the HLSL text as the literal the constant
+    folder computed, while the same operator in a run-time position is printed as the operator: the two agree only if
+    evaluate_operator has the run-time semantics. The operator table of C13 (evaluate_operator walked on sample operands
+    against the reference semantics) is therefore also an obligation of C01 (keys C13.op/..)."""
+    import c13
+    f = chk.facts
+    ev = f.fn("evaluate_operator", c13.TY)
+    if not ev:
+        return      # C13 fails closed on the anchor
+    if not c13.rule_op_eval(chk, ev):
+        c13.rule_op(chk, ev)
 
 
 MI_TYPES = ["Bool", "Int32", "UInt32", "Float32", "Int323", "Float322", "Float324", "Float322x2", "Int324x4", "Enum", "Struct", "Float32[4]", "Float324[2]"]
